@@ -17,6 +17,7 @@ CONSTANTS
   AsyncKinds = {}
   MaxNet = 0
   W = {}
+  MayTimeout = {a, b, c}
   Gen = TRUE
   OutDir = "OUTDIR"
 SPECIFICATION GSpec
